@@ -1287,7 +1287,8 @@ theorem writeHeader_length (nf : Bool) (tag n : Nat) :
 theorem hdrWriteLen_fixed (nf : Bool) (tag n : Nat) :
     hdrWriteLen { newFormat := nf, tag := tag, len := .fixed n } = headerLenFn nf n := by
   cases nf
-  · simp only [hdrWriteLen, headerLenFn, Gen.phwOldOneOctetLimit, Gen.phwOldTwoOctetLimit,
+  · simp only [hdrWriteLen, headerLenFn, Gen.oftOneOctetLimit, Gen.oftTwoOctetLimit,
+      Gen.phwOldType0Len, Gen.phwOldType1Len, Gen.phwOldType2Len,
       Gen.hlOldOneOctetLimit, Gen.hlOldTwoOctetLimit, Bool.false_eq_true, if_false]
     by_cases c1 : n < 256
     · simp [c1]
